@@ -122,6 +122,13 @@ def run(ctx):
         k = rng.choice([0, 1, 2, 3, 4, 4, 4, 5, 8, 9])
         rawss = [gen_hashes(rng, rng.choice([0, 0, 1, 2, 3, 5, 8, 17]), rng.choice(STYLES)) for _ in range(k)]
         judge_listlist(ctx, rawss)
+    # validation passes that are all empty, or empty but for one: the shapes of blocks without operations
+    if ctx.mine(0):
+        for k in range(0, 9):
+            ctx.count('all_empty_pass_shapes')
+            judge_listlist(ctx, [[] for _ in range(k)])
+            for j in range(k):
+                judge_listlist(ctx, [gen_hashes(rng, 1 if i == j else 0, 'random') for i in range(k)])
     for _ in range(ctx.pick(600, 8000) // ctx.nshards):
         n = rng.choice([0, 1, 2, 3, 4, 5, 7, 8, 9, 31, 33, rng.randint(0, 130)])
         rnd = rng.choice([0, 1, 2, 255, 256, 2 ** 31 - 1, rng.getrandbits(31)])
